@@ -69,7 +69,11 @@ def gen(ch, tier):
     annot = ch.choice([1, 2, 3, 4, ["x", "y"], ["Zoe"], ["b", "a", "c"]])
     trials = []
     for _ in range(TIERS[tier]["trials"]):
-        trials.append({"flags": [ch.coin(0.5) for _ in FLAGS], "np_seed": ch.randint(0, 2**31 - 1)})
+        seq = None
+        if ch.coin(0.5):
+            seq = [ch.choice(["shift_shuffle", "false_neg_shuffle", "false_pos_shuffle", "category_shuffle", "splits_shuffle"])
+                   for _ in range(ch.randint(2, 3))]
+        trials.append({"flags": [ch.coin(0.5) for _ in FLAGS], "np_seed": ch.randint(0, 2**31 - 1), "sequence": seq})
     return {"reference": units, "magnitude": mag, "annotators": annot, "trials": trials,
             "adv_seed": ch.randint(0, 2**31 - 1), "adv_rate": ch.choice([0.1, 0.3, 0.6])}
 
@@ -197,6 +201,43 @@ def run(case):
                         break
                 if violations:
                     break
+            # ---- C. perturbations in SEQUENCE on one corpus: each judged against the state just before it ----
+            if not violations and trial.get("sequence"):
+                corpus = tool.corpus_from_reference(names)
+                for which in trial["sequence"]:
+                    before = {a: units_of(corpus, a) for a in corpus.annotators}
+                    try:
+                        getattr(tool, which)(corpus)
+                    except Exception as e:  # noqa: BLE001
+                        if adversarial:
+                            stats["raised_under_injection"] = stats.get("raised_under_injection", 0) + 1
+                            break
+                        viol("raises", f"{which} (in sequence {trial['sequence']}) with magnitude {m} raised {type(e).__name__}: {e}",
+                             adversarial, exc=type(e).__name__, which=which)
+                        break
+                    stats["sequenced_perturbations"] = stats.get("sequenced_perturbations", 0) + 1
+                    for a in before:
+                        b, af = before[a], units_of(corpus, a)
+                        msg = None
+                        if which == "category_shuffle" and sorted((s, e) for s, e, _ in b) != sorted((s, e) for s, e, _ in af):
+                            msg = f"category_shuffle changed the segments of {a}"
+                        elif which == "false_neg_shuffle" and not set(af) <= set(b):
+                            msg = f"false_neg_shuffle added units to {a}: {sorted(set(af) - set(b))[:2]}"
+                        elif which == "false_pos_shuffle" and not set(af) >= set(b):
+                            msg = f"false_pos_shuffle removed units from {a}: {sorted(set(b) - set(af))[:2]}"
+                        elif which == "shift_shuffle" and len(af) != len(b):
+                            msg = f"shift_shuffle changed the number of units of {a}: {len(b)} -> {len(af)}"
+                        elif which == "splits_shuffle":
+                            tb, ta = sum(e - s for s, e, _ in b), sum(e - s for s, e, _ in af)
+                            if abs(tb - ta) > 1e-9 * max(1.0, tb):
+                                msg = f"splits_shuffle changed the total duration of {a}: {tb!r} -> {ta!r}"
+                        if not af:
+                            msg = f"{which} left annotator {a} empty"
+                        if msg:
+                            viol("confinement", msg + f" (sequence {trial['sequence']}, m={m})", adversarial, which=which, sequence=True)
+                            break
+                    if violations:
+                        break
         stats["rng_calls"] = stats.get("rng_calls", 0) + seam.calls
         if adversarial:
             stats["fault_rng_extreme"] = stats.get("fault_rng_extreme", 0) + sum(seam.injected.values())
